@@ -176,6 +176,10 @@ func (factory transportFactory) New() core.Transport {
 	return &Transport{
 		keepAlive:     true,
 		cookieManager: globalCookieManager,
+		// a call is not idempotent: fasthttp sends a POST again, up to five times, when the
+		// server closes the connection without an answer - after it may have run the call.
+		// Retries are the business of the cluster plugin, which knows what may be repeated.
+		FastHTTPClient: fasthttp.Client{MaxIdemponentCallAttempts: 1},
 	}
 }
 
